@@ -284,7 +284,7 @@ fn huff_profile_cases(r: &mut Rng, t: Tier, fam: &str, ops: &[&str], extra: &[&s
         }
         // every third profile on a wide element type: the most frequent symbol has a large
         // *value* (the code table is indexed by value; sort keys must not mix value and length)
-        if ty.1 >= 32 && i % 3 == 2 && alph >= 2 {
+        if ty.1 >= 32 && alph >= 2 && (i % 3 == 2 || r.chance(1, 2)) {
             let heavy = (0..alph).max_by_key(|&k| freqs[k]).unwrap();
             syms[heavy] = *r.pick(&[65_536u128, 200_000, 262_144, 300_000, 1 << 19, 1 << 20, (1 << 20) + 12345]);
         }
